@@ -24,6 +24,7 @@ type Env struct {
 	pkg    *types.Package
 	lookup func(name string) (SV, bool) // extra resolver (loop locals)
 	inSpec bool                         // inside a spec function body: no heap
+	visited func() (*Term, types.Type)  // visited-key set of the enclosing map range loop
 }
 
 func (e *Env) child() *Env {
@@ -910,6 +911,16 @@ func (e *Env) evalCall(n *ast.CallExpr, hint types.Type) SV {
 				}
 			}
 			return scalarSV(boolT, Eq(now, want))
+		case "visited": // visited(k): key k was already produced by the enclosing range-over-map loop
+			if e.visited == nil {
+				efail("visited() outside a loop invariant")
+			}
+			vis, kt := e.visited()
+			if vis == nil {
+				efail("visited(): no map iterator in this loop")
+			}
+			k := e.eval(n.Args[0], kt)
+			return scalarSV(boolT, Select(vis, keyTerm(k)))
 		case "sameArray": // sameArray(s1, s2): the two slices share their backing array
 			a := e.eval(n.Args[0], nil)
 			b := e.eval(n.Args[1], nil)
